@@ -1,4 +1,4 @@
 ---- MODULE MC_Revocation ----
 EXTENDS Revocation, Json
-Emit == PrintT(<<"VEC", ToJson([status |-> status, about |-> about, responder |-> responder, batch |-> batch, binds |-> Binds, verdict |-> Verdict])>>)
+Emit == PrintT(<<"VEC", ToJson([status |-> status, about |-> about, responder |-> responder, batch |-> batch, chain |-> chain, binds |-> Binds, verdict |-> Verdict])>>)
 ====
